@@ -11,7 +11,7 @@
 //        size    0..total ; runs as csv of keys, `-` = empty run
 //   es <n> <p>                          multiway_merge_detail::equally_split
 // answers
-//   out <key:seq:pos,...> ret <n> begins <b0,b1,..> win <start+len,...>
+//   out <key:seq:pos,...> ret <n> begins <b0,b1,..> win <start+len,...> spec <0|1>
 //        win: maximal windows of output positions written by one thread, sorted by start,
 //        prefixed `m` when written by the calling thread (sequential fall-back)
 //   es <s0,s1,...>
@@ -200,8 +200,6 @@ static void do_pm(const std::vector<std::string>& t, const std::string& line) {
         }
         if (win.empty()) win = "-";
     }
-    vh::answer("out " + show_elems(shown) + " ret " + std::to_string(ret - target) + " begins " + vh::show_csv(begins) + " win " + win);
-
     // ---- direct oracle
     std::vector<std::string> bad;
     std::vector<E> all;
@@ -251,6 +249,9 @@ static void do_pm(const std::vector<std::string>& t, const std::string& line) {
                 if (seen[s][p] != ((long)p < begins[s] ? 1 : 0)) pref = false;
         if (!pref) bad.push_back("inputs not advanced past exactly the elements they contributed");
     }
+    // `spec`: verdict of the oracle; the driver prints whether the model's answer equals the specification
+    vh::answer("out " + show_elems(shown) + " ret " + std::to_string(ret - target) + " begins " + vh::show_csv(begins) +
+               " win " + win + " spec " + (bad.empty() ? "1" : "0"));
     for (auto& b : bad) vh::viol(b + " in " + line);
 }
 
